@@ -559,6 +559,62 @@ func rtUGeneric(a *aggregator, v *rtView) {
 			bad = append(bad, fmt.Sprintf("%s: %s(%s) in %s", v.in.srcPos(in.Pos()), b.Name(), cvX.Name(), f.Name()))
 		})
 	}
+	// arithmetic in the offset type: U may be as small as uint8, so a value computed in U must not
+	// exceed what an offset or a token count can reach. The runtime only ever steps (x+1, x-1 for the
+	// last token, x+U(len(…)) for a replayed run of tokens); products, shifts and sums of two offsets
+	// wrap for small U long before the input does
+	nA := 0
+	var badA []string
+	for _, f := range v.all {
+		instrsOf(f, func(in ssa.Instruction) {
+			bo, ok := in.(*ssa.BinOp)
+			if !ok {
+				return
+			}
+			if _, isTP := bo.Type().(*types.TypeParam); !isTP {
+				return
+			}
+			nA++
+			isOne := func(x ssa.Value) bool {
+				k, ok := x.(*ssa.Const)
+				return ok && k.Value != nil && k.Value.String() == "1"
+			}
+			isLen := func(x ssa.Value) bool {
+				for {
+					switch y := x.(type) {
+					case *ssa.Convert:
+						x = y.X
+						continue
+					case *ssa.MultiConvert:
+						x = y.X
+						continue
+					case *ssa.ChangeType:
+						x = y.X
+						continue
+					case *ssa.Call:
+						if b, ok := y.Call.Value.(*ssa.Builtin); ok && b.Name() == "len" {
+							return true
+						}
+					}
+					return false
+				}
+			}
+			switch bo.Op {
+			case token.ADD:
+				if isOne(bo.Y) || isOne(bo.X) || isLen(bo.Y) || isLen(bo.X) {
+					return
+				}
+			case token.SUB:
+				if isOne(bo.Y) {
+					return
+				}
+			}
+			badA = append(badA, fmt.Sprintf("%s: %s %s %s in %s", v.in.srcPos(in.Pos()), bo.X.Name(), bo.Op, bo.Y.Name(), f.Name()))
+		})
+	}
+	a.Decide(len(badA) == 0, "R-U-arith", "runtime/arithmetic in the offset type only steps", cfg, "",
+		fmt.Sprintf("%d operation(s) with a result of type U: each is x+1, x-1 or x+U(len(…))", nA),
+		"a value of the offset type is computed by an operation that can wrap for small U (uint8, uint16) on inputs those types can hold: "+strings.Join(badA, "; "))
 	a.Decide(len(bad) == 0, "R-U-generic", "runtime/conversions of U-typed values", cfg, "",
 		fmt.Sprintf("%d conversion(s) from U examined: all to int/uint/64-bit types, or the listed Trim(uint32(tokenIndex)) (differs only beyond 2^32 tokens)", n),
 		"a U-typed offset is narrowed: "+strings.Join(bad, "; "))
